@@ -462,17 +462,42 @@ Section Variant.
   Definition init_pipe_stream (P min_buffer : nat) (data : list N) (chunks : list nat) : option fp :=
     let s := init_common P min_buffer data chunks in
     shift (mk_fp [] 0 0 0 (dms s) false true true P data (open_stream data chunks) (fuel s)).
+  (* MMapShift when MapRead throws (mmap fails: ENODEV on file systems that cannot be mapped, EINVAL for the zero-length map
+     of a procfs file, ENOMEM ...): at_end_ was already set if the window was going to reach the end of the file; the catch
+     block seeks (when desired_begin != 0), clears at_end_ and calls TransitionToRead.  Only used for the first window
+     (desired_begin = 0) -- see init_file_nommap. *)
+  Definition mmap_shift_failed (desired : nat) (s : fp) : fp :=
+    let ignore := desired mod page s in
+    let dms' := if (pos s =? ignore) && mapped s then 2 * dms s else dms s in
+    let moff := desired - ignore in
+    let remaining := length (file s) - moff in
+    let ae := remaining <=? dms' in                                  (* at_end_ = true before the failed MapRead *)
+    let s_try := mk_fp (buf s) (pos s) (ls s) (mo s) dms' ae (fallback s) (mapped s) (page s) (file s) (source s) (fuel s) in
+    (* catch (const util::ErrnoException &) { if (desired_begin) SeekOrThrow(...); at_end_ = false; TransitionToRead(); } *)
+    transition_to_read desired
+      (mk_fp (buf s_try) (pos s_try) (ls s_try) (mo s_try) (dms s_try) false (fallback s_try) (mapped s_try) (page s_try)
+             (file s_try) (source s_try) (fuel s_try)).
+
+  (* FilePiece(name) / FilePiece(fd) on a regular file whose first mmap fails: Initialize -> Shift -> MMapShift fails ->
+     read backend from offset 0 (`data` is what read() delivers; for procfs total_size_ is 0 although data is not empty --
+     the model does not need total_size_ on this path) *)
+  Definition init_file_nommap (P min_buffer : nat) (data : list N) (chunks : list nat) : option fp :=
+    let s0 := init_common P min_buffer data chunks in
+    let s1 := mmap_shift_failed (pos s0 + mo s0) s0 in
+    let s2 := read_shift s1 in
+    Some (set_ls s2 (pos s2 + last_space_rel (avail s2))).
 End Variant.
 
 Arguments LOk {A}. Arguments LEof {A}. Arguments LFuel {A}.
 
-Inductive backend := BFile | BPipe | BStream | BPipeStream.
+Inductive backend := BFile | BPipe | BStream | BPipeStream | BFileNoMmap.
 Definition init (v : variant) (b : backend) (P min_buffer : nat) (data : list N) (chunks : list nat) : option fp :=
   match b with
   | BFile => init_file v P min_buffer data chunks
   | BPipe => init_pipe v P min_buffer data chunks
   | BStream => init_stream P min_buffer data chunks
   | BPipeStream => init_pipe_stream v P min_buffer data chunks
+  | BFileNoMmap => init_file_nommap v P min_buffer data chunks
   end.
 
 (* what the drivers print for one case: None when the constructor threw end of file (it cannot) *)
